@@ -232,6 +232,7 @@ pub const BODIES: &[&str] = &[
 /// (compact / standard / pretty), or taken from the pool of envelope bodies the runtime itself writes.
 pub fn arb_body() -> BoxedStrategy<String> {
     prop_oneof![
+        1 => Just(String::new()),
         4 => proptest::sample::select(BODIES).prop_map(|s| s.to_string()),
         6 => (vgen::arb_value(true), 0u8..3).prop_map(|(v, p)| {
             let value = v.to_value();
